@@ -45,13 +45,15 @@ func (s *Server) Subscribe(stream gnmi.GNMI_SubscribeServer) error {
 		req, err := stream.Recv()
 		if err != nil {
 			if err != io.EOF {
-				// Cancel SB requests and exit normally
+				// The client is gone: cancel SB requests and exit normally
 				log.Info("Client closed the subscription stream")
 				return nil
 			}
-			// Cancel SB requests and exit with error
-			log.Warn(err)
-			return err
+			// The client has only closed its sending direction: there are no more requests,
+			// the responses are relayed until it leaves
+			log.Info("Client closed the sending direction of the subscription stream")
+			<-stream.Context().Done()
+			return nil
 		}
 
 		log.Infof("Received gNMI Subscribe Request: %+v", req)
